@@ -143,9 +143,28 @@ def generic_model(H, extra, prefs):
     return C.robust_model(symx.abstract_ufs(list(H) + list(extra)), prefs, timeout_ms=20000, budget_s=8.0)
 
 
-def input_prefs(ts, salt=0):
+def obj_terms(obj):
+    """z3 terms of the proxies inside a nested structure."""
+    out = []
+    if isinstance(obj, Sym):
+        out.append(obj.t)
+    elif isinstance(obj, dict):
+        for v in obj.values():
+            out.extend(obj_terms(v))
+    elif isinstance(obj, np.ndarray):
+        if obj.dtype == object:
+            for v in obj.ravel():
+                out.extend(obj_terms(v))
+    elif isinstance(obj, (list, tuple)):
+        for v in obj:
+            out.extend(obj_terms(v))
+    return out
+
+
+def input_prefs(ts, salt=0, objs=()):
     """(const, preferred value) for every ``in.`` symbol of the terms."""
     prefs = []
+    ts = list(ts) + obj_terms(list(objs))
     for k, (name, c) in enumerate(sorted(symx.consts_of(ts).items())):
         if not name.startswith(("in.", "pre.")) or not z3.is_real(c) or name.endswith("'"):
             continue
@@ -244,10 +263,14 @@ def real_o1_kernel(name, dim, entry, q, mesh, cutoff, mode):
     model = _real_kernel_model(name)
     qv = [np.asarray(v, dtype=float) for v in q]
     keep, outs, errs = [], [], []
-    for salt in (None, 0, 1):
-        kern = model.make_kernel(qv)
-        keep.append(kern)
+    # fresh kernel; kernels polluted by two different earlier calls; fresh kernels
+    # whose uninitialised buffers hold two chosen contents (what np.empty returns
+    # is whatever earlier objects left on the heap)
+    for salt, fill in ((None, None), (0, None), (1, None), (None, 3.25), (None, 17.5)):
         try:
+            with (heap_content(fill) if fill is not None else contextlib.nullcontext()):
+                kern = model.make_kernel(qv)
+            keep.append(kern)
             if salt is not None:
                 real_kernel_request(kern, "call_kernel", _pollution_mesh(kern.info, mesh, salt), 0.0, 0)
             outs.append(bits(real_kernel_request(kern, entry, mesh, cutoff, mode)))
@@ -316,13 +339,20 @@ def dll_pars(info, dim, disp, magnetic, entry):
         pars[disp + "_pd_nsigma"] = symx.real("in.nsigma." + disp)
         pars[disp + "_pd_type"] = "gaussian"
     if magnetic:
-        for par in p.call_parameters[2 + p.npars:]:
-            keep = par.name.startswith("up_") or par.name.startswith(magnetic)
-            if keep:
-                pars[par.name] = symx.real("in.v." + par.name)
+        pars.update(magnetic_block(magnetic, "in."))
     if entry == "call_Fq":
         pars[RADIUS_MODE_ID] = Sym(z3.Int("in.mode"))
     return pars
+
+
+def magnetic_block(sld, tag):
+    """Polarisation and the magnetisation of one SLD: the up-fractions are
+    concrete (0.25, 0.5: all four spin channels contribute, their weights are
+    structure), the angles and the magnitude symbolic."""
+    out = {"up_frac_i": 0.25, "up_frac_f": 0.5}
+    for nm in ("up_theta", "up_phi", sld + "_M0", sld + "_mtheta", sld + "_mphi"):
+        out[nm] = symx.real("%sv.%s" % (tag, nm))
+    return out
 
 
 def make_dll_kernel(model, qv):
@@ -335,10 +365,10 @@ def make_dll_kernel(model, qv):
     return kern
 
 
-def sym_q(dim):
+def sym_q(dim, tag="in."):
     if dim == "1d":
-        return [symx.oarray([symx.real("in.q0"), symx.real("in.q1")])]
-    return [symx.oarray([symx.real("in.qx0")]), symx.oarray([symx.real("in.qy0")])]
+        return [symx.oarray([symx.real(tag + "q0"), symx.real(tag + "q1")])]
+    return [symx.oarray([symx.real(tag + "qx0")]), symx.oarray([symx.real(tag + "qy0")])]
 
 
 def first_pd(info, dim):
@@ -466,7 +496,7 @@ def _o1_kernel_handler(ctx):
     def factory(rp):
         def mk(i, j, hyps, phi):
             def handler(m):
-                m2 = generic_model(hyps, [z3.Not(phi)], input_prefs(hyps)) or m
+                m2 = generic_model(hyps, [z3.Not(phi)], input_prefs(hyps + [phi])) or m
                 best = None
                 for mm in (m2, m):
                     mesh = concretize(mm, rp[i].result["mesh"])
@@ -763,7 +793,7 @@ def _o2_comp_handler(ctx):
         def handler(m):
             p = ctx["paths"][pi]
             hyps = p.constraints()
-            m2 = generic_model(hyps, [], input_prefs(hyps)) or m
+            m2 = generic_model(hyps, [], input_prefs(hyps, objs=[p.result["mesh"], ctx["q"]])) or m
             mesh = concretize(m2, p.result["mesh"])
             q = concretize(m2, ctx["q"])
             changed, detail = real_o2_mesh(ctx["name"], ctx["dim"], q, mesh, 0.0)
@@ -844,11 +874,13 @@ def sasview_reqs(info, dim, disp, magnetic, tag, length=2):
         if C.is_structural(par):
             continue
         is_mag = par.name.endswith(("_M0", "_mtheta", "_mphi")) or par.name.startswith("up_")
-        if par.type == "orientation" and dim == "1d":
+        if (par.type == "orientation" and dim == "1d") or is_mag:
             continue
-        if is_mag and not (magnetic and (par.name.startswith("up_") or par.name.startswith(magnetic))):
-            continue
+        if info.structure_factor and par.name in ("scale", "background"):
+            continue        # hidden parameters of a structure factor
         pars[par.name] = symx.real("%sv.%s" % (tag, par.name))
+    if magnetic:
+        pars.update(magnetic_block(magnetic, tag))
     d = {}
     if disp:
         d[disp] = (symx.oarray([symx.real("%sd.%d" % (tag, i)) for i in range(length)]),
@@ -881,7 +913,7 @@ def unit_sasview(cfg):
         Model = sasview_model.make_model_from_info(info)      # a new class: _model is None
         with patched_build(lambda i: km.make_model(), builds):
             op = int(Sym(op_t))
-            m = sasview_prefix(Model, op, req, pre, sym_q(dim), entry)
+            m = sasview_prefix(Model, op, req, pre, sym_q(dim, "pre."), entry)   # earlier calls: other q
             sasview_set(m, req)
             W = Watch()
             q = sym_q(dim)
@@ -951,11 +983,11 @@ def real_sasview(name, entry, req, pre, q, ops=(0, 1, 2, 3)):
     outs, errs = [], []
     qv = [np.asarray(v, dtype=float) for v in q]
     for op in ops:
-        for fill in (3.25, -17.5):
+        for fill in (3.25, 17.5):
             Model = sasview_model._make_standard_model(name)
             try:
                 with heap_content(fill):
-                    m = sasview_prefix(Model, op, req, pre, qv, entry)
+                    m = sasview_prefix(Model, op, req, pre, [1.5 * v for v in qv], entry)
                     sasview_set(m, req)
                     outs.append(bits(sasview_request(m, req, qv, entry)))
                 errs.append(None)
@@ -982,7 +1014,7 @@ def _o1_sasview_handler(ctx):
     def factory(rp):
         def mk(i, j, hyps, phi):
             def handler(m):
-                m2 = generic_model(hyps, [z3.Not(phi)], input_prefs(hyps)) or m
+                m2 = generic_model(hyps, [z3.Not(phi)], input_prefs(hyps + [phi])) or m
                 for mm in (m2, m):
                     req, pre, q = _sv_conc(ctx, mm)
                     outs, errs = real_sasview(ctx["name"], ctx["entry"], req, pre, q)
@@ -1028,7 +1060,7 @@ def _o2_sasview_handler(ctx):
     def mk(pi, wlabel, diffs, log):
         def handler(m):
             hyps = ctx["paths"][pi].constraints()
-            m2 = generic_model(hyps, [], input_prefs(hyps)) or m
+            m2 = generic_model(hyps, [], input_prefs(hyps, objs=[ctx["req"]])) or m
             req, pre, q = _sv_conc(ctx, m2)
             changed, detail = real_o2_sasview(ctx["name"], ctx["entry"], req, q)
             rep = wlabel in changed
@@ -1155,7 +1187,7 @@ def real_direct(kind, name, dim, smear, pars, pre, ops=(0, 1)):
     model = C.real_model(name)
     outs, errs = [], []
     for op in ops:
-        for fill in (3.25, -17.5):
+        for fill in (3.25, 17.5):
             data = direct_data(dim, smear)
             try:
                 with heap_content(fill):
@@ -1175,7 +1207,7 @@ def _o1_direct_handler(ctx):
     def factory(rp):
         def mk(i, j, hyps, phi):
             def handler(m):
-                m2 = generic_model(hyps, [z3.Not(phi)], input_prefs(hyps)) or m
+                m2 = generic_model(hyps, [z3.Not(phi)], input_prefs(hyps + [phi])) or m
                 for mm in (m2, m):
                     pars, pre = _direct_conc(ctx, mm)
                     outs, errs = real_direct(ctx["kind"], ctx["name"], ctx["dim"], ctx["smear"], pars, pre)
@@ -1218,7 +1250,7 @@ def _o2_direct_handler(ctx):
     def mk(pi, wlabel, diffs, log):
         def handler(m):
             hyps = ctx["paths"][pi].constraints()
-            m2 = generic_model(hyps, [], input_prefs(hyps)) or m
+            m2 = generic_model(hyps, [], input_prefs(hyps, objs=[ctx["pars0"]])) or m
             pars, _pre = _direct_conc(ctx, m2)
             changed, detail = real_o2_direct(ctx["kind"], ctx["name"], ctx["dim"], ctx["smear"], pars)
             rep = wlabel in changed
@@ -1432,7 +1464,7 @@ def configs(chk):
         ("cylinder", "2d", "theta", 0, "evalDistribution", None),
         ("cylinder", "2d", "radius", 2, "calculate_Iq", None),
         ("core_shell_sphere", "1d", None, 2, "calculate_Iq", None),
-        ("hardsphere", "1d", "radius_effective", 2, "evalDistribution", None),
+        ("hardsphere", "1d", None, 2, "evalDistribution", None),
         ("sphere", "2d", None, 2, "calculate_Iq", "sld"),
     ]]
     items += [("direct", c) for c in [
